@@ -561,7 +561,33 @@ def check_lines(ctx, prog):
                     ok_eof = True
     ctx.check(ok_cap and cap is not None and cap <= 65536, 'C09.lines', f['pq'], 'readLine:line length capped inside the loop', fwhere(f), 'cap %s' % cap,
               'Socket_::readLine has no length cap with an exit inside its read loop: a peer that never sends a newline grows the line without bound')
-    ctx.check(ok_eof, 'C09.lines', f['pq'], 'readLine:ends on EOF / error', fwhere(f), 'n <= 0 leaves the loop', 'Socket_::readLine does not leave its loop when read() returns <= 0: it spins after the peer closed')
+    # EOF / error: once read() has returned <= 0, no further read() is reachable (CFG reachability with the result bound)
+    rcfg = cfgm.CFG(f)
+    reads = [n_ for n_ in rcfg.nodes if n_.kind == 'ev' and n_.e is not None and n_.e.get('k') == 'call' and (n_.e.get('pq') or '').endswith('Socket_::read') and len(n_.e.get('a', [])) == 2]
+    if len(reads) != 1:
+        ctx.check(ok_eof, 'C09.lines', f['pq'], 'readLine:ends on EOF / error', fwhere(f), 'n <= 0 leaves the loop', 'Socket_::readLine does not leave its loop when read() returns <= 0: it spins after the peer closed')
+    else:
+        rd = reads[0]
+        spins = None
+        for rv in (0, -1):
+            ev = bounded.Bound(prog, f, {}, {pe(rd.e): rv})
+            seen, work = set(), [m_ for m_, _ in rd.succ]
+            while work:
+                n_ = work.pop()
+                if n_ is rd:
+                    spins = rv
+                    break
+                if n_.id in seen:
+                    continue
+                seen.add(n_.id)
+                want = ev.ev3(n_.e) if n_.kind == 'br' and n_.e is not None else None
+                for m_, lab in n_.succ:
+                    if want is not None and lab in (True, False) and lab != want:
+                        continue
+                    work.append(m_)
+            ctx.evaluations += 1
+        ctx.check(spins is None, 'C09.lines', f['pq'], 'readLine:ends on EOF / error', fwhere(f, rd.line), 'after read() returned <= 0 no further read() is reachable',
+                  'Socket_::readLine reads again after read() returned %s: it spins after the peer closed' % spins)
     h = fn1(prog, 'asl::HttpMessage::readHeaders')
     ctx.analysed(h)
     g = q.Guarded(h)
